@@ -233,6 +233,18 @@ var longKeys = []string{strings.Repeat("k", 127), strings.Repeat("k", 128), stri
 // Props draws a property map.
 func Props(s *core.Source) geojson.Properties {
 	p := geojson.Properties{}
+	if s.Chance(1, 12, "samebits") {
+		// the same bit pattern as values of different integer kinds (and as a float)
+		bits := []uint64{1<<64 - 1, 1 << 63, 1, 0, 1<<53 + 1}[s.Intn(5, "bits")]
+		p["u"] = bits
+		p["i"] = int64(bits)
+		if s.Bool("more") {
+			p["n"] = int(int64(bits))
+			p["f"] = float64(bits)
+			p["u32"] = uint32(bits)
+			p["i8"] = int8(bits)
+		}
+	}
 	s.Repeat(0, 2, 6, "prop", func(int) {
 		k := keyPool[s.Intn(len(keyPool), "key")]
 		if s.Chance(1, 40, "longkey") {
